@@ -287,6 +287,18 @@ func extractHub() {
 	} else {
 		miss("cancel_conds")
 	}
+	// the token table is searched by exact match (chain and id / denom / numeric id): an id that only resembles a listed one is unknown
+	{
+		var l []string
+		for _, name := range []string{"ExternalIdToTokenInfoLookup", "DenomToTokenInfoLookup", "TokenIdToTokenInfoLookup"} {
+			if fd := findFunc(fKeeper, "Keeper", name); fd != nil {
+				l = append(l, name+": "+strings.Join(ifConds(fd.Body, ""), " ; "))
+			} else {
+				l = append(l, name+": <missing>")
+			}
+		}
+		set("token_lookup_conds", strings.Join(l, " | "))
+	}
 	if fd := findFunc(fPool, "Keeper", "createSendToExternal"); fd != nil {
 		var order []string
 		for _, n := range collect(fd.Body, func(n ast.Node) bool { _, ok := n.(*ast.CallExpr); return ok }) {
